@@ -443,7 +443,9 @@ static void run_ops(const Script& sc, const std::vector<std::string>& binding) {
             std::string ev;
             if (op.k == "VN") {
                 vr = r->vp_make(h, op.a[1], op.s, op.a[2]);
-                ev = "{\"e\":\"vptr\"," + P + ",\"h\":" + std::to_string(h) + ",\"k\":" + std::to_string(op.a[1]) +
+                // k: the node that is the static type of the argument (one above the handle's node for the "up" routes)
+                const int argnode = (op.s == "refup" || op.s == "sh_up") ? op.a[1] + 1 : op.a[1];
+                ev = "{\"e\":\"vptr\"," + P + ",\"h\":" + std::to_string(h) + ",\"k\":" + std::to_string(argnode) +
                      ",\"route\":\"" + op.s + "\",\"dyn\":" + std::to_string(op.a[2]);
             } else {
                 // a stale direct handle must not be touched
